@@ -75,7 +75,10 @@ def build(case):
     prog = []
     ln = 10
     dims = [(n, b, [("&H%X" % x if rng.random() < 0.2 else str(x)) for x in b]) for n, s, nd, b, p in spec if b is not None]
-    if dims:
+    # the README asks for DIM before use; a DIM placed late (e.g. in an initialisation subroutine at the end of the
+    # listing) is still one declaration with the source's bounds -- only the "before first use" clause is waived then
+    dim_late = bool(dims) and rng.random() < 0.12
+    if dims and not dim_late:
         prog.append((ln, [("dim", dims)]))
         ln += 10
     data_needed = 0
@@ -90,9 +93,12 @@ def build(case):
             if pos == "read":
                 data_needed += 1
             ln += 10
+    if dim_late:
+        prog.append((ln, [("dim", dims)]))
+        ln += 10
     if data_needed:
         prog.append((ln, [("data", [("q", "D")] * data_needed)]))
-    return prog, spec
+    return prog, spec, dim_late
 
 
 def expected_table(spec, storage, cfg):
@@ -128,8 +134,9 @@ def classify_positions(poss):
 def run_case(case):
     if case.get("fixed"):
         prog, spec = [(n, list(st)) for n, st in case["fixed"]], [tuple(x) for x in case.get("spec", [])]
+        dim_late = False
     else:
-        prog, spec = build(case)
+        prog, spec, dim_late = build(case)
     storage = case["storage"]
     rng = random.Random(case["seed"] + 5)
     cfg = {}
@@ -195,7 +202,7 @@ def run_case(case):
         if list(d[0][0]) != dims:
             kindd = "implicit-multidim" if (not dimmed and nd > 1) else ("implicit" if not dimmed else "dimmed")
             v("C10/dims/" + kindd, name=ident, declared=list(d[0][0]), expected=dims)
-        if used and d[0][2] > first_use[ident]:
+        if used and d[0][2] > first_use[ident] and not dim_late:
             v("C10/declared-after-use", name=ident)
     # strings
     if storage != 32:
